@@ -95,7 +95,7 @@ theorem inv_pcStore {reg : Reg} {sh : Sh} (hi : Inv reg sh) (t : String) :
       rw [dlookup_dstore_same, this]
     · rw [dlookup_dstore_other _ _ _ heq]; exact h
 
-theorem inv_tcStore {reg : Reg} {sh : Sh} (hi : Inv reg sh) (key : TKey) (h : String) (hr : reg key = some h) :
+theorem inv_tcStore {reg : Reg} {sh : Sh} (hi : Inv reg sh) (key : TKey) (h : Option String) (hr : reg key = h) :
     Inv reg { sh with typeCache := dstore key h sh.typeCache } ∧
     sh.le { sh with typeCache := dstore key h sh.typeCache } := by
   refine ⟨⟨hi.1, ?_⟩, ⟨fun _ _ h => h, ?_⟩⟩
@@ -109,7 +109,7 @@ theorem inv_tcStore {reg : Reg} {sh : Sh} (hi : Inv reg sh) (key : TKey) (h : St
       have := hi.2 _ (dlookup_mem hl)
       simp only at this
       rw [hr] at this
-      rw [dlookup_dstore_same]; exact this.symm ▸ rfl
+      rw [dlookup_dstore_same, this]
     · rw [dlookup_dstore_other _ _ _ heq]; exact hl
 
 /-! ### a residual program that, whatever the others do, ends with outcome `a` -/
@@ -122,7 +122,7 @@ def Agrees (reg : Reg) : Prog → Out → Sh → Prop
       ∀ sh', sh.le sh' → Inv reg sh' → Agrees reg k a { sh' with pathCache := dstore t p sh'.pathCache }
   | .pcGet t k, a, sh => ∀ sh', sh.le sh' → Inv reg sh' → Agrees reg (k (dlookup t sh'.pathCache)) a sh'
   | .tcHas key k, a, sh => ∀ sh', sh.le sh' → Inv reg sh' → Agrees reg (k (dlookup key sh'.typeCache).isSome) a sh'
-  | .tcStore key h k, a, sh => reg key = some h ∧
+  | .tcStore key h k, a, sh => reg key = h ∧
       ∀ sh', sh.le sh' → Inv reg sh' → Agrees reg k a { sh' with typeCache := dstore key h sh'.typeCache }
   | .tcGet key k, a, sh => ∀ sh', sh.le sh' → Inv reg sh' → Agrees reg (k (dlookup key sh'.typeCache)) a sh'
   | .tcReset _, _, _ => False
@@ -221,8 +221,15 @@ theorem agrees_bind {reg : Reg} : ∀ (p : Prog) (f : Out → Prog) (o a : Out) 
 theorem inv_lookup_path {reg : Reg} {sh : Sh} (hi : Inv reg sh) {t : String} {p : PathV}
     (h : dlookup t sh.pathCache = some p) : p = create t := hi.1 _ (dlookup_mem h)
 
-theorem inv_lookup_type {reg : Reg} {sh : Sh} (hi : Inv reg sh) {key : TKey} {h : String}
-    (hl : dlookup key sh.typeCache = some h) : reg key = some h := hi.2 _ (dlookup_mem hl)
+theorem inv_lookup_type {reg : Reg} {sh : Sh} (hi : Inv reg sh) {key : TKey} {h : Option String}
+    (hl : dlookup key sh.typeCache = some h) : reg key = h := hi.2 _ (dlookup_mem hl)
+
+/-- reading a memo entry that agrees with the tables gives what a lookup alone gives -/
+theorem hitResult_inv (reg : Reg) (key : TKey) (raiseExc : Bool) (h : Option String) (hr : reg key = h) :
+    hitResult raiseExc (some h) = .ok (lookupAlone reg key raiseExc) := by
+  cases h with
+  | none => simp [hitResult, lookupAlone, hr]
+  | some x => simp [hitResult, lookupAlone, hr]
 
 /-- `Path.from_text` under arbitrary interference: whatever the interleaving, the
     continuation receives `create text` -/
@@ -251,39 +258,41 @@ theorem agrees_fromText {reg : Reg} (max : Nat) (t : String) (k : Except Err Pat
       exact hk sh4 (Sh.le_trans h1 (Sh.le_trans h2 (Sh.le_trans h3
         (Sh.le_trans (inv_pcStore i3 t).2 h4)))) i4
 
-theorem agrees_getHandler {reg : Reg} (key : TKey) (k : Except Err HRes → Prog) (a : Out) (sh : Sh)
-    (hk : ∀ sh', sh.le sh' → Inv reg sh' →
-      Agrees reg (k (.ok (match reg key with | some h => .found h | none => .unregistered))) a sh') :
-    Agrees reg (getHandlerP reg key k) a sh := by
+theorem agrees_getHandler {reg : Reg} (key : TKey) (raiseExc : Bool) (k : Except Err HRes → Prog) (a : Out) (sh : Sh)
+    (hk : ∀ sh', sh.le sh' → Inv reg sh' → Agrees reg (k (.ok (lookupAlone reg key raiseExc))) a sh') :
+    Agrees reg (getHandlerP reg key raiseExc k) a sh := by
   simp only [getHandlerP, Agrees]
   intro sh1 h1 i1
+  -- the store (of a handler, or of a remembered False) followed by the final lookup
+  have hstore : ∀ (h : Option String), reg key = h →
+      Agrees reg (.tcStore key h (.tcGet key fun r => k (hitResult raiseExc r))) a sh1 := by
+    intro h hr
+    simp only [Agrees]
+    refine ⟨hr, ?_⟩
+    intro sh3 h3 i3 sh4 h4 i4
+    have : dlookup key sh4.typeCache = some h := h4.2 key _ (dlookup_dstore_same key h _)
+    rw [this, hitResult_inv reg key raiseExc h hr]
+    exact hk sh4 (Sh.le_trans h1 (Sh.le_trans h3 (Sh.le_trans (inv_tcStore i3 key h hr).2 h4))) i4
   cases hl : dlookup key sh1.typeCache with
   | some h =>
     simp only [Option.isSome_some, ↓reduceIte, Agrees]
     intro sh2 h2 i2
-    rw [h2.2 key h hl]
-    simp only
-    have hr := inv_lookup_type i1 hl
-    have := hk sh2 (Sh.le_trans h1 h2) i2
-    rw [hr] at this
-    exact this
+    rw [h2.2 key h hl, hitResult_inv reg key raiseExc h (inv_lookup_type i1 hl)]
+    exact hk sh2 (Sh.le_trans h1 h2) i2
   | none =>
     simp only [Option.isSome_none, Bool.false_eq_true, ↓reduceIte]
     cases hr : reg key with
     | none =>
       simp only
-      have := hk sh1 h1 i1
-      rw [hr] at this
-      exact this
-    | some h =>
-      simp only [Agrees]
-      refine ⟨hr, ?_⟩
-      intro sh3 h3 i3 sh4 h4 i4
-      have : dlookup key sh4.typeCache = some h := h4.2 key _ (dlookup_dstore_same key h _)
-      rw [this]
-      have := hk sh4 (Sh.le_trans h1 (Sh.le_trans h3 (Sh.le_trans (inv_tcStore i3 key h hr).2 h4))) i4
-      rw [hr] at this
-      exact this
+      cases raiseExc with
+      | true =>
+        simp only [↓reduceIte]
+        have := hk sh1 h1 i1
+        simpa [lookupAlone, hr] using this
+      | false =>
+        simp only [Bool.false_eq_true, ↓reduceIte]
+        exact hstore none hr
+    | some h => exact hstore (some h) hr
 
 theorem compile_agrees (max : Nat) (reg : Reg) : ∀ (ev : Ev) (sh : Sh), Inv reg sh →
     Agrees reg (compile max reg ev) (denote reg ev) sh := by
@@ -294,10 +303,10 @@ theorem compile_agrees (max : Nat) (reg : Reg) : ∀ (ev : Ev) (sh : Sh), Inv re
     intro sh _
     simp only [compile, denote]
     exact agrees_fromText max t _ _ sh (fun sh' _ hi' => ih _ sh' hi')
-  | handler key k ih =>
+  | handler key re k ih =>
     intro sh _
     simp only [compile, denote]
-    exact agrees_getHandler key _ _ sh (fun sh' _ hi' => ih _ sh' hi')
+    exact agrees_getHandler key re _ _ sh (fun sh' _ hi' => ih _ sh' hi')
   | user f k ih =>
     intro sh _
     simp only [compile, denote, Agrees]
@@ -512,6 +521,33 @@ theorem execOps_framed (base : Nat) : ∀ (ops : List SOp) (h : SHeap) (chain : 
       (Nat.le_trans hb h1.grows) h1.fresh
     exact ⟨fun a ha => by rw [h2.old a ha, h1.old a ha], Nat.le_trans h1.grows h2.grows, h2.fresh⟩
 end
+
+/-! ### the recursion guard of `bbrepr`: keys of other threads do not matter -/
+
+theorem renderGuarded_congr (perCall : Bool) (tid : Nat) : ∀ (c : RChain) (a b : List (Nat × Nat × Nat)) (call : Nat),
+    (∀ k : Nat × Nat × Nat, k.2.1 = tid → (a.contains k = b.contains k)) →
+    renderGuarded perCall a tid call c = renderGuarded perCall b tid call c := by
+  intro c
+  induction c with
+  | leaf id name =>
+    intro a b call h
+    simp only [renderGuarded]
+    rw [h _ rfl]
+  | node id name via inner ih =>
+    intro a b call h
+    simp only [renderGuarded]
+    generalize hk : ((id, tid, if perCall = true then call else 0) : Nat × Nat × Nat) = key
+    have hkt : key.2.1 = tid := by rw [← hk]
+    rw [h key hkt]
+    cases hb : b.contains key with
+    | true => rfl
+    | false =>
+      simp only [Bool.false_eq_true, ↓reduceIte]
+      congr 1
+      apply ih
+      intro k hk'
+      simp only [List.contains_cons]
+      rw [h k hk']
 
 end Glom.C20
 
